@@ -139,6 +139,7 @@ func init() {
 		partAllocStorms(c, a)
 		partStoreStress(c, a) // concurrent registration of type names (ids and names one-to-one)
 		partStepThrough(c, a, []string{"create", "lastleave", "switch"})
+		partRealRegistryAcrossReregistration(c, a)
 		return a.finish(c)
 	}
 }
